@@ -355,6 +355,32 @@ def run_case(a):
     return idx, verdict, {k: (v['stage'], v['rc'], v['out'], v['err'][-300:]) for k, v in r.items()}
 
 
+def idiom_programs(rng, k0):
+    """Small dedicated programs for constructs the random generators do not produce: the GNU `a ?: b` form (first operand evaluated once),
+    the scope of a declared name inside its own initializer (block-scope static, automatic, enum, for-init), shadowing across namespaces."""
+    progs = []
+    k = k0 * 10000
+    vals = [rng.choice([0, 0, 1, 3, -1]) for _ in range(6)]
+    elvis = PRELUDE + 'static long n;\nint main(void) {\n'
+    for i, v in enumerate(vals):
+        elvis += '  OUTV(%d, V(%d, %d) ?: V(%d, 7));\n' % (k + i, k + 100 + i, v, k + 200 + i)
+        elvis += '  n = %d; OUTV(%d, n-- ?: 9); OUTV(%d, n);\n' % (v, k + 300 + i, k + 400 + i)
+        elvis += '  OUTV(%d, (V(%d, %d) ?: V(%d, 0)) ?: V(%d, 5));\n' % (k + 500 + i, k + 600 + i, v, k + 700 + i, k + 800 + i)
+        elvis += '  OUTV(%d, VD(%d, %s) ?: VD(%d, 2.5) );\n' % (k + 900 + i, k + 1000 + i, rng.choice(['0.0', '0.5', '-0.0']), k + 1100 + i)
+    elvis += '  return 0;\n}\n'
+    progs.append((elvis, {'idiom:elvis-operator'}, 'trace'))
+    a, b = rng.choice([3, 5, 7]), rng.choice([2, 4, 6])
+    scope = PRELUDE + 'static long n[%d]; static char link[%d]; enum { K = %d }; typedef char T[%d];\n' % (a, b, a + b, a)
+    scope += ('static void f(int T) {\n  OUTV(1, sizeof(T));\n  { static long n = sizeof(n); OUTV(2, n); }\n  { static void *link = &link; OUTV(3, link == (void *)&link); OUTV(4, sizeof(link)); }\n'
+              '  { long n = sizeof(n); OUTV(5, n); }\n  { enum { K = K + 1, L = K }; OUTV(6, K); OUTV(7, L); }\n  { int K = K; (void)K; OUTV(8, sizeof(K)); }\n'
+              '  for (int n = sizeof(n), i = 0; i < 1; i++) { OUTV(9, n); long n = 2; OUTV(10, sizeof(n)); }\n  { struct n { char c[%d]; }; OUTV(11, sizeof(struct n)); OUTV(12, sizeof(n)); }\n'
+              '  { static T; }\n  { typedef long n; n x = 0; OUTV(13, sizeof(x)); { n n = 1; OUTV(14, sizeof(n)); } }\n  { static int self = sizeof(self) + 1; OUTV(15, self); static char arr[sizeof(arr) ? 3 : 9]; }\n'
+              '  goto n; n: OUTV(16, sizeof(n));\n}\nint main(void) { f(1); return 0; }\n' % (a + 1))
+    scope = scope.replace('  { static T; }\n', '').replace(' static char arr[sizeof(arr) ? 3 : 9];', '')
+    progs.append((scope, {'idiom:name-in-own-initializer'}, 'bind'))
+    return progs
+
+
 def run(ctx):
     cc = ctx.build('plain')
     work = ctx.tmpdir('c03')
@@ -379,6 +405,8 @@ def run(ctx):
                 feats |= f2
             src = PRELUDE + '\n'.join(fs) + '\nint main(void) { %s return 0; }\n' % ' '.join('prog%d();' % (k * 8 + j) for j in range(8))
             progs.append((src, feats, 'trace'))
+    for j in range(ctx.scale(6, 60)):
+        progs += idiom_programs(rng, n + j)
     ctx.count('programs', n)
     results = core.pmap(run_case, [(i, cc, work, p[0]) for i, p in enumerate(progs)], chunksize=8)
     for idx, verdict, r in results:
